@@ -485,3 +485,90 @@ func orderRaceScenario(ct qCtor, n int) *mc.Scenario {
 		},
 	}
 }
+
+// giveUpRaceScenario: limit 1 held; n waiters parked in a known order; then the holder's release
+// races the head's give-up (cancellation with eviction on, or its backlog timeout on the eager
+// clock). Whatever the interleaving, the released capacity must end with a caller that is still
+// waiting, in the configured order: if the head returned refused, the next in line holds it.
+func giveUpRaceScenario(ct qCtor, n int, byTimeout bool) *mc.Scenario {
+	how := "cancel"
+	if byTimeout {
+		how = "timeout"
+	}
+	return &mc.Scenario{
+		Name:   "C11/giveup-race/" + ct.name,
+		Params: fmt.Sprintf("order=%s limit=1 waiters=%d head gives up by %s while the holder releases", ct.order, n, how),
+		Cfg:    vrt.Config{MaxSteps: 8000, EagerClock: byTimeout, Horizon: int64(10 * time.Second)},
+		Body: func(x *mc.Exec) {
+			reg := NewRecRegistry()
+			strat := newStrategy("precise", 1, nil)
+			def := newDefaultLimiter(limit.NewFixedLimit("f", 1, nil), strat, 1e6, 1e6, nil)
+			// the head's timeout is short, everybody else's is long (per-arrival order below)
+			top := ct.build(def, 10, 50*time.Millisecond, !byTimeout, reg)
+			held, ok := top.Acquire(waiterCtx(100))
+			if !ok {
+				x.Fail("setup", "holder could not acquire")
+				return
+			}
+			granted := make([]bool, n)
+			returned := make([]bool, n)
+			cancels := make([]vctx.CancelFunc, n)
+			hold := vchan.Make[int]()
+			for i := 0; i < n; i++ {
+				i := i
+				var ctx vctx.Context
+				ctx, cancels[i] = vctx.WithCancel(waiterCtx(i))
+				vrt.GoL(fmt.Sprintf("W%d", i), func() {
+					_, ok := top.Acquire(ctx)
+					granted[i], returned[i] = ok, true
+					if ok {
+						hold.Recv() // keep the token
+					}
+				})
+				vrt.WaitQuiescent()
+				if byTimeout {
+					vtime.Sleep(10 * time.Millisecond) // distinct expiry instants; the first to arrive expires first
+					vrt.WaitQuiescent()
+				}
+			}
+			head, next := 0, 1
+			if ct.order == "lifo" {
+				head, next = n-1, n-2
+			}
+			if byTimeout && ct.order == "lifo" {
+				return // the earliest expiry belongs to the oldest waiter, which is the head only under FIFO
+			}
+			var ths []*vrt.Thread
+			ths = append(ths, vrt.GoL("H", func() { held.OnSuccess() }))
+			if !byTimeout {
+				ths = append(ths, vrt.GoL("X", func() { cancels[head]() }))
+			} else {
+				// let virtual time reach the head's expiry while the release is in progress (eager clock)
+				ths = append(ths, vrt.GoL("T", func() { vtime.Sleep(45 * time.Millisecond) }))
+			}
+			vrt.Join(ths...)
+			vrt.WaitQuiescent()
+			x.Observe("granted=%v returned=%v", granted, returned)
+			x.MarkConflict()
+			busy := stratView{s: strat}.Busy()
+			holders := 0
+			for _, g := range granted {
+				if g {
+					holders++
+				}
+			}
+			if returned[head] && !granted[head] && !granted[next] && vrt.Now() < int64(55*time.Millisecond) {
+				x.Fail("order/grant-lost-to-departed-caller", "%s: the head (waiter %d) returned refused, yet the released capacity did not go to the next caller in line (waiter %d): granted=%v returned=%v strategy busy=%d",
+					strings.ToUpper(ct.order), head, next, granted, returned, busy)
+			}
+			if busy != holders {
+				x.Fail("order/grant-to-nobody", "strategy busy=%d but %d callers hold a token (granted=%v returned=%v)", busy, holders, granted, returned)
+			}
+			for i := range granted {
+				if granted[i] && i != head && i != next {
+					x.Fail("order/"+ct.order+"-served-wrong-waiter", "waiter %d was granted; head is %d, next is %d", i, head, next)
+				}
+			}
+		},
+	}
+}
